@@ -610,7 +610,7 @@ fn c23_batch(out: &mut CaseOut) {
 fn c23_malformed(out: &mut CaseOut) {
     let r = gen_req();
     let good = serde_json::to_vec(&req_json(&r)).unwrap();
-    let kind = draw(11);
+    let kind = draw(14);
     let (label, result): (String, Option<DecodeRes>) = match kind {
         0 => {
             // JSON cut in the middle of the document
@@ -651,6 +651,42 @@ fn c23_malformed(out: &mut CaseOut) {
         10 => {
             let body = serde_json::to_vec(&json!({"query": "{ id }", "operationName": 5})).unwrap();
             ("operationName is a number".to_string(), decode_body("malformed", None, body, draw_plan(false, 10), false).0)
+        }
+        11..=13 => {
+            // one member of the request has the wrong JSON type, in any of the four encodings
+            let (member, wrong): (&str, J) = match draw(4) {
+                0 => ("variables", [json!([1, 2]), json!(7), json!("{}"), json!(true), json!([])][draw(5) as usize].clone()),
+                1 => ("extensions", [json!([1, 2]), json!(7), json!("{}"), json!(true), json!([])][draw(5) as usize].clone()),
+                2 => ("query", [json!(7), json!([]), json!(true), json!({})][draw(4) as usize].clone()),
+                _ => ("operationName", [json!(7), json!([]), json!({}), json!(false)][draw(4) as usize].clone()),
+            };
+            let mut doc = req_json(&r);
+            doc[member] = wrong.clone();
+            let enc = if member == "variables" || member == "extensions" { draw(4) } else { draw(3) };
+            match enc {
+                0 => {
+                    let body = serde_json::to_vec(&doc).unwrap();
+                    let plan = draw_plan(false, body.len());
+                    (format!("json body with {member} = {wrong}"), decode_body("malformed", Some("application/json".into()), body, plan, chance(1, 2)).0)
+                }
+                1 => {
+                    let body = serde_json::to_vec(&json!([req_json(&r), doc])).unwrap();
+                    let plan = draw_plan(false, body.len());
+                    (format!("batch element with {member} = {wrong}"), decode_body("malformed", None, body, plan, true).0)
+                }
+                2 => {
+                    let body = multipart_body(&[
+                        Part { name: "operations".into(), filename: None, content_type: None, data: serde_json::to_vec(&doc).unwrap() },
+                        Part { name: "map".into(), filename: None, content_type: None, data: b"{}".to_vec() },
+                    ]);
+                    let plan = draw_plan(false, body.len());
+                    (format!("multipart operations with {member} = {wrong}"), decode_body("malformed", Some(mp_content_type()), body, plan, chance(1, 2)).0)
+                }
+                _ => {
+                    let qs = format!("query={}&{member}={}", urlencode(&r.query), urlencode(&wrong.to_string()));
+                    (format!("GET with {member} = {wrong}: {qs}"), Some(parse_query_string(&qs).map(|r| req_fields(&r)).map_err(|e| format!("{e:?}"))))
+                }
+            }
         }
         6 => {
             // multipart without the operations part
